@@ -579,6 +579,7 @@ func (st *Runtime) executeList(list *ListNode) (returnValue reflect.Value) {
 func (st *Runtime) executeTry(try *TryNode) (returnValue reflect.Value) {
 	writer := st.Writer
 	buf := new(bytes.Buffer)
+	scope, context, content := st.scope, st.context, st.content
 
 	defer func() {
 		r := recover()
@@ -588,6 +589,8 @@ func (st *Runtime) executeTry(try *TryNode) (returnValue reflect.Value) {
 			io.Copy(writer, buf)
 		} else {
 			// st.Writer is already set to its original value since the later defer ran first
+			// the panic skipped the restores done by if, range and yield, so scope, context and content are reset here
+			st.scope, st.context, st.content = scope, context, content
 			if try.Catch != nil {
 				if try.Catch.Err != nil {
 					st.newScope()
